@@ -282,7 +282,8 @@ func noneOf(chars string) func(string) bool {
 
 func staticSites() []staticSite {
 	el := func(n *gen.Node) *gen.Node { n.Kind = gen.KElem; return n }
-	ident := noneOf("%#.[{=!/<> \t\n\r\"'`\\&}]:,?@")
+	// what the lexer lets follow an identifier ends it; everything else is allowed in tag names, ids and classes
+	ident := noneOf("%#.[{=!/<> \t\n\r")
 	return []staticSite{
 		{"text-line", false, func(s string) bool { return noneOf("\n\r")(s) && !strings.Contains(s, "#{") && !strings.ContainsAny(s[:1], "%#.-=/:!\\<>[{") && !strings.HasSuffix(s, `\`) },
 			func(s string) *gen.Node { return txt(st(s)) }},
@@ -319,13 +320,36 @@ func staticSites() []staticSite {
 		{"class-attr", true, func(s string) bool { return s != "" && !strings.ContainsAny(s, "\n\r") }, func(s string) *gen.Node {
 			return el(&gen.Node{Tag: "p", ClassAttr: s, Inline: txt(st("x"))})
 		}},
+		{"class-beside-dynamic-class", true, ident, func(s string) *gen.Node {
+			return el(&gen.Node{Tag: "p", Classes: []string{s}, ClassExprs: []string{`"dyn"`}, Inline: txt(st("x"))})
+		}},
+		{"class-beside-object-ref", true, ident, func(s string) *gen.Node {
+			return el(&gen.Node{Tag: "p", Classes: []string{s}, ObjRef: "o0", Inline: txt(st("x"))})
+		}},
+		{"class-attr-beside-dynamic-class", true, func(s string) bool { return s != "" && !strings.ContainsAny(s, "\n\r") }, func(s string) *gen.Node {
+			return el(&gen.Node{Tag: "p", ClassAttr: s, ObjRef: "o0", Inline: txt(st("x"))})
+		}},
+		{"id-beside-object-ref", true, ident, func(s string) *gen.Node {
+			return el(&gen.Node{Tag: "p", ID: s, ObjRef: "o0", Inline: txt(st("x"))})
+		}},
+		{"attr-value-beside-dynamic-attr", true, func(s string) bool { return s != "" && !strings.ContainsAny(s, "\n\r") }, func(s string) *gen.Node {
+			return el(&gen.Node{Tag: "p", Attrs: []gen.Attr{{Name: "t", Kind: gen.AStatic, Value: s, ValQuote: '"'}, {Name: "u", Kind: gen.ADynamic, Expr: "s0"}, {Name: "c", Kind: gen.ACond, Expr: "b0"}}, Inline: txt(st("x"))})
+		}},
+		{"text-before-interpolation", false, func(s string) bool { return noneOf("\n\r")(s) && !strings.Contains(s, "#{") && !strings.ContainsAny(s[:1], "%#.-=/:!\\<>[{") && !strings.HasSuffix(s, `\`) },
+			func(s string) *gen.Node { return txt(st(s), dyn("s0"), st(s)) }},
+		{"filter-plain-before-interpolation", false, func(s string) bool { return noneOf("\n\r")(s) && !strings.Contains(s, "#") },
+			func(s string) *gen.Node { return &gen.Node{Kind: gen.KFilter, Filter: "plain", Lines: [][]gen.Part{{st(s), dyn("s0"), st(s)}}} }},
+		{"filter-preserve-before-interpolation", false, func(s string) bool { return noneOf("\n\r")(s) && !strings.Contains(s, "#") },
+			func(s string) *gen.Node { return &gen.Node{Kind: gen.KFilter, Filter: "preserve", Lines: [][]gen.Part{{st(s), dyn("s0"), st(s)}, {st(s)}}} }},
+		{"filter-escaped-before-interpolation", true, func(s string) bool { return noneOf("\n\r")(s) && !strings.Contains(s, "#") },
+			func(s string) *gen.Node { return &gen.Node{Kind: gen.KFilter, Filter: "escaped", Lines: [][]gen.Part{{st(s), dyn("s0"), st(s)}}} }},
 		{"comment", true, func(s string) bool { return noneOf("\n\r")(s) && !strings.HasPrefix(s, "/") }, func(s string) *gen.Node {
 			return &gen.Node{Kind: gen.KComment, Code: s}
 		}},
 	}
 }
 
-var c04Strings = []string{"plain", `say "hi"`, `back\slash`, "tick`tock", `a\nb`, `\"`, `\x`, `\t`, "{x}", "# h", "a#b", "50% off", "a&b", "<b>", "it's", "ünï", "日本", "a😀b", "x}y", "{", "q?", "a:b", "a,b", "a=b", "~☢<", ">☢~", "tab\there", `\`, `\\`, `"`, "`", "'", "&amp;", "a-b_c", "x.y", "@k", "a/b"}
+var c04Strings = []string{"plain", "x#", "##", "#é", "a# b", "é#", "a&b", `a"b`, "a'b", `say "hi"`, `back\slash`, "tick`tock", `a\nb`, `\"`, `\x`, `\t`, "{x}", "# h", "a#b", "50% off", "a&b", "<b>", "it's", "ünï", "日本", "a😀b", "x}y", "{", "q?", "a:b", "a,b", "a=b", "~☢<", ">☢~", "tab\there", `\`, `\\`, `"`, "`", "'", "&amp;", "a-b_c", "x.y", "@k", "a/b"}
 
 func c04(c *Ctx) {
 	c.Rep.TieObs = []string{"O-emit.text (generated Go, byte for byte)", "O-render"}
@@ -373,7 +397,7 @@ func c04(c *Ctx) {
 		}
 		prepFile(f)
 		p, src := f.Print()
-		rc := &RenderCase{File: f, Printer: p, Src: src, Names: names, Envs: []rt.Env{{S0: "s"}}}
+		rc := &RenderCase{File: f, Printer: p, Src: src, Names: names, Envs: []rt.Env{{S0: "s", B0: true, O0: rt.Obj{ID: "i", Class: "oc"}}}}
 		for _, n := range names {
 			rc.Jobs = append(rc.Jobs, rt.Job{Name: n})
 		}
@@ -390,7 +414,7 @@ func c04(c *Ctx) {
 			f1 := &gen.File{Package: "main", Chrome: []string{gen.Chrome + "\nfunc f2(a, b string) string { return a + b }\n"}, Templates: []*gen.Template{t}}
 			prepFile(f1)
 			p, src := f1.Print()
-			singles = append(singles, &RenderCase{File: f1, Printer: p, Src: src, Names: []string{t.Name}, Envs: []rt.Env{{S0: "s"}}, Jobs: []rt.Job{{Name: t.Name}}})
+			singles = append(singles, &RenderCase{File: f1, Printer: p, Src: src, Names: []string{t.Name}, Envs: []rt.Env{{S0: "s", B0: true, O0: rt.Obj{ID: "i", Class: "oc"}}}, Jobs: []rt.Job{{Name: t.Name}}})
 		}
 	}
 	if len(singles) > c.N(400, 4000) {
